@@ -89,6 +89,12 @@ CLAIMED = {
                   'tied by parsing write_XML_file output of hundreds to thousands of generated accepted models with expat and comparing it as a tree (layout removed) with the extracted model and as a graph with the generator\'s abstract model.',
              design='4/C20',
              note='Trusted: hand model WriterModel.v, libxml2 text writer (serialisation and escaping), Python ElementTree/expat, docgen.py, utapdump. Layout, the global declaration element and the system element are not modelled; LSC templates are not generated.'),
+ 'C08': dict(technique='Coq invariant proofs by induction over arbitrary callback / operation sequences (edge end points, initial location, instance parameter order / arity / mapping, dense numbering, back pointers); instance-model correspondence in XML and XTA, and the executable invariant traversed after valid, faulty and throwing parses',
+             text='C08_edges_closed, C08_init_among_locations: for every sequence of builder callbacks with arbitrary arguments every edge has a source and a target among the locations / branchpoints of its own template and a recorded init is one of the template\'s locations; '
+                  'C08_instances (+ C08_instance_statement): after any sequence of template declarations, full / partial / rejected instantiations and system-line entries every instance lists its unbound parameters first, has a type of that arity and maps exactly its bound parameters; '
+                  'C08_numbering_dense, C08_back_pointers. Tied by comparing the document\'s instances and processes with the extracted model on generated scenarios in both front ends, and by the full invariant traversal (utapdump check_inv) after hundreds to thousands of faulty parses.',
+             design='4/C08',
+             note='Pointer stability of std::list / std::deque is runtime behaviour outside the model (back pointers are modelled as (container, index)). "init present when error-free" is checked by the traversal, not proved (it depends on the front ends reporting a missing init; the XTA front end did not: fixed b597bb8).'),
 }
 NOT_YET = 'check not built yet in this revision (work in progress, see DESIGN.md section 7 staging)'
 m = dict(version=1, setup_cmd='tools/setup.sh',
